@@ -207,3 +207,125 @@ Proof.
     assert (Em : mconcat (py_write_item uc cfg) out st = Ok (concat parts, st')) by (apply mconcat_writes_seq; eauto).
     rewrite Em. reflexivity.
 Qed.
+
+(* Scala overrides generate_types and does NOT sort: the aliases (inside the package object, after the unsigned
+   helper aliases when an unsigned integer is used), then the structs, then the enums (inside the package), each
+   list in ParsedData order; data.consts is not written at all.  So the written sequence is the crate's items in
+   generate_types order with the consts removed - a permutation (the identity) of the items when the crate has no const. *)
+Definition sc_written_items (pd : parsed) : list ritem :=
+  map ItAlias (p_aliases pd) ++ map ItStruct (p_structs pd) ++ map ItEnum (p_enums pd).
+
+Theorem sc_multi_list_order uc cfg (pd : parsed) :
+  (forall text,
+    sc_generate uc cfg pd = Ok text <->
+    exists head als sts ens,
+      sc_begin_file cfg = Ok head /\
+      writes_list (sc_write_item cfg) (map ItAlias (p_aliases pd)) als /\
+      writes_list (sc_write_item cfg) (map ItStruct (p_structs pd)) sts /\
+      writes_list (sc_write_item cfg) (map ItEnum (p_enums pd)) ens /\
+      text = head ++
+             (if sc_unsigned_integer_used pd || negb (sc_is_empty (p_aliases pd))
+              then sc_begin_package_object cfg ++
+                   (if sc_unsigned_integer_used pd then sc_render_decl sc_unsigned_aliases else []) ++
+                   concat als ++ sc_end_package_object cfg
+              else []) ++
+             (if negb (sc_is_empty (p_structs pd)) || negb (sc_is_empty (p_enums pd))
+              then sc_begin_package cfg ++ concat sts ++ concat ens ++ sc_end_package cfg
+              else [])) /\
+  items_of pd = sc_written_items pd ++ map ItConst (p_consts pd) /\
+  (p_consts pd = [] -> Permutation (sc_written_items pd) (items_of pd)).
+Proof.
+  split; [|split].
+  - intros text. unfold sc_generate, sc_concat. cbv zeta. split.
+    + destruct (sc_begin_file cfg) as [head| |] eqn:Eh; cbn [bind]; try discriminate.
+      intros H.
+      assert (Ha : exists als, writes_list (sc_write_item cfg) (map ItAlias (p_aliases pd)) als /\
+                   (if sc_unsigned_integer_used pd || negb (sc_is_empty (p_aliases pd))
+                    then do aliases <- (do parts <- mapM (sc_write_item cfg) (map ItAlias (p_aliases pd)); Ok (concat parts));
+                         Ok (sc_begin_package_object cfg ++ (if sc_unsigned_integer_used pd then sc_render_decl sc_unsigned_aliases else []) ++
+                             aliases ++ sc_end_package_object cfg)
+                    else Ok []) =
+                   Ok (if sc_unsigned_integer_used pd || negb (sc_is_empty (p_aliases pd))
+                       then sc_begin_package_object cfg ++ (if sc_unsigned_integer_used pd then sc_render_decl sc_unsigned_aliases else []) ++
+                            concat als ++ sc_end_package_object cfg
+                       else [])).
+      { destruct (sc_unsigned_integer_used pd || negb (sc_is_empty (p_aliases pd))) eqn:Eb.
+        - destruct (mapM (sc_write_item cfg) (map ItAlias (p_aliases pd))) as [ps| |] eqn:Em; cbn [bind] in H; try discriminate.
+          exists ps. split; [now apply mapM_writes_list|reflexivity].
+        - exists []. split; [|reflexivity]. apply orb_false_iff in Eb as [_ Eb].
+          destruct (p_aliases pd); [constructor|discriminate]. }
+      destruct Ha as (als & Hals & Ea).
+      match type of Ea with ?L = _ => match type of H with bind _ ?K = ?R => change (bind L K = R) in H end end.
+      rewrite Ea in H. cbn [bind] in H.
+      assert (Hb : exists sts ens, writes_list (sc_write_item cfg) (map ItStruct (p_structs pd)) sts /\
+                   writes_list (sc_write_item cfg) (map ItEnum (p_enums pd)) ens /\
+                   (if negb (sc_is_empty (p_structs pd)) || negb (sc_is_empty (p_enums pd))
+                    then do structs <- (do parts <- mapM (sc_write_item cfg) (map ItStruct (p_structs pd)); Ok (concat parts));
+                         do enums <- (do parts <- mapM (sc_write_item cfg) (map ItEnum (p_enums pd)); Ok (concat parts));
+                         Ok (sc_begin_package cfg ++ structs ++ enums ++ sc_end_package cfg)
+                    else Ok []) =
+                   Ok (if negb (sc_is_empty (p_structs pd)) || negb (sc_is_empty (p_enums pd))
+                       then sc_begin_package cfg ++ concat sts ++ concat ens ++ sc_end_package cfg else [])).
+      { destruct (negb (sc_is_empty (p_structs pd)) || negb (sc_is_empty (p_enums pd))) eqn:Eb.
+        - destruct (mapM (sc_write_item cfg) (map ItStruct (p_structs pd))) as [ps| |] eqn:Em; cbn [bind] in H; try discriminate.
+          destruct (mapM (sc_write_item cfg) (map ItEnum (p_enums pd))) as [qs| |] eqn:En; cbn [bind] in H; try discriminate.
+          exists ps, qs. split; [now apply mapM_writes_list|]. split; [now apply mapM_writes_list|reflexivity].
+        - exists [], []. apply orb_false_iff in Eb as [Eb1 Eb2].
+          split; [destruct (p_structs pd); [constructor|discriminate]|].
+          split; [destruct (p_enums pd); [constructor|discriminate]|reflexivity]. }
+      destruct Hb as (sts & ens & Hsts & Hens & Eb).
+      match type of Eb with ?L = _ => match type of H with bind _ ?K = ?R => change (bind L K = R) in H end end.
+      rewrite Eb in H. cbn [bind] in H. injection H as <-.
+      exists head, als, sts, ens. split; [reflexivity|]. repeat (split; [assumption|]). reflexivity.
+    + intros (head & als & sts & ens & Eh & Hals & Hsts & Hens & ->). rewrite Eh. cbn [bind].
+      apply mapM_writes_list in Hals, Hsts, Hens. rewrite Hals, Hsts, Hens. cbn [bind].
+      destruct (sc_unsigned_integer_used pd || negb (sc_is_empty (p_aliases pd))); cbn [bind];
+        destruct (negb (sc_is_empty (p_structs pd)) || negb (sc_is_empty (p_enums pd))); cbn [bind]; reflexivity.
+  - unfold items_of, sc_written_items. now rewrite <- !app_assoc.
+  - intros Ec. unfold items_of, sc_written_items. rewrite Ec. cbn [map]. rewrite app_nil_r. apply Permutation_refl.
+Qed.
+
+(* ---------------------------------------------------------------- (2) the whole workspace *)
+
+(* what generate_crates does with ANY generator: the crates are taken in plan order, crate number i is handed
+   its own name, its own import list and its own data (nothing of another crate) and the printer state its
+   predecessor left; the run stops at the first failure *)
+Lemma generate_crates_trace {St : Type} (gen : St -> str -> scoped -> parsed -> outcome (str * St)) :
+  forall plan st files fin, generate_crates gen st plan = (files, fin) ->
+    map fst files = firstn (length files) (map op_file plan) /\
+    exists states : list St,
+      nth_error states 0 = Some st /\
+      (forall i fname text, nth_error files i = Some (fname, Writer.Generated text) ->
+         exists p st_i st_i',
+           nth_error plan i = Some p /\ fname = op_file p /\
+           nth_error states i = Some st_i /\ nth_error states (S i) = Some st_i' /\
+           gen st_i (op_crate p) (op_imports p) (op_data p) = Ok (text, st_i')) /\
+      (forall i fname, nth_error files i = Some (fname, Writer.GenFailed) ->
+         S i = length files /\ forall st', fin <> Ok st') /\
+      (forall st', fin = Ok st' -> length files = length plan /\ nth_error states (length plan) = Some st').
+Proof.
+  induction plan as [|p r IH]; intros st files fin H; cbn [generate_crates] in H.
+  - injection H as <- <-. split; [reflexivity|]. exists [st]. split; [reflexivity|].
+    split; [intros [|i] ? ? E; discriminate|]. split; [intros [|i] ? E; discriminate|].
+    intros st' [= <-]. split; reflexivity.
+  - destruct (gen st (op_crate p) (op_imports p) (op_data p)) as [[text st1]|e|s] eqn:Eg.
+    + destruct (generate_crates gen st1 r) as [rest fin1] eqn:Er. injection H as <- <-.
+      destruct (IH st1 rest fin1 Er) as (Hn & states & H0 & Hgen & Hfail & Hfin).
+      split; [cbn [map fst length firstn]; now rewrite Hn|].
+      exists (st :: states). split; [reflexivity|]. split; [|split].
+      * intros [|i] fname text' E; cbn [nth_error] in E.
+        -- injection E as <- <-. exists p, st, st1. repeat (split; [reflexivity|]). split; [exact H0|exact Eg].
+        -- destruct (Hgen i fname text' E) as (q & a & b & Hq & Hf & Ha & Hb & Hg).
+           exists q, a, b. cbn [nth_error]. auto.
+      * intros [|i] fname E; cbn [nth_error] in E; [discriminate|].
+        destruct (Hfail i fname E) as [HL HF]. split; [cbn [length]; now rewrite HL|exact HF].
+      * intros st' E. destruct (Hfin st' E) as [HL HS]. split; [cbn [length]; now rewrite HL|exact HS].
+    + injection H as <- <-. split; [reflexivity|]. exists [st]. split; [reflexivity|].
+      split; [intros [|[|i]] ? ? E; discriminate|].
+      split; [intros [|[|i]] ? E; try discriminate; split; [reflexivity|intros ? ?; discriminate]|].
+      intros ? ?; discriminate.
+    + injection H as <- <-. split; [reflexivity|]. exists [st]. split; [reflexivity|].
+      split; [intros [|[|i]] ? ? E; discriminate|].
+      split; [intros [|[|i]] ? E; try discriminate; split; [reflexivity|intros ? ?; discriminate]|].
+      intros ? ?; discriminate.
+Qed.
